@@ -17,8 +17,8 @@ for d in $WT/mutant_*.diff; do
   clean_demo=$(CARGO_NET_OFFLINE=true cargo test --offline --test demo_$i 2>&1 | grep -E "^test result" | head -1)
   if ! git apply --check $d 2>/dev/null; then echo "$PID-$i: patch does not apply to current HEAD"; rm tests/demo_$i.rs; continue; fi
   git apply $d
-  suite=$( (CARGO_NET_OFFLINE=true cargo test --offline --lib 2>&1; CARGO_NET_OFFLINE=true cargo test --offline --doc 2>&1) | grep -E "^test result|error(\[|:)" | tr '\n' ' ')
-  mut_demo=$(CARGO_NET_OFFLINE=true cargo test --offline --test demo_$i 2>&1 | grep -E "^test result|error(\[|:)" | head -1)
+  suite=$( (CARGO_NET_OFFLINE=true cargo test --offline --lib 2>&1; CARGO_NET_OFFLINE=true cargo test --offline --doc 2>&1) | grep -E "^test result|^error(\[|:)" | tr '\n' ' ')
+  mut_demo=$(CARGO_NET_OFFLINE=true cargo test --offline --test demo_$i 2>&1 | grep -E "^test result|^error(\[|:)" | head -1)
   git checkout -q -- src
   rm tests/demo_$i.rs
   echo "$PID-$i: clean_demo=[$clean_demo] suite=[$suite] mutant_demo=[$mut_demo]"
